@@ -18,10 +18,15 @@ class FakeSock:
     def shutdown(self, *a): pass
 
 
+_DAEMON = []
+
+
 def mk_daemon():
-    d = S.Daemon.__new__(S.Daemon)
-    d._pyroInstances = {}
-    d.create_single_instance_lock = threading.Lock()
+    """a real Daemon (so that whatever state __init__ sets up for instance creation exists), its instance table emptied"""
+    if not _DAEMON:
+        _DAEMON.append(S.Daemon(host="127.0.0.1", port=0))
+    d = _DAEMON[0]
+    d._pyroInstances.clear()
     return d
 
 
@@ -131,6 +136,43 @@ def forced_race():
     return None
 
 
+def line_schedules(max_k):
+    """bounded schedule exploration at source-line granularity (replay/sched.py): two connections make the FIRST call on a 'single' class at the
+    same time; whatever the interleaving, one instance is created and both calls are served by it"""
+    import replay.sched as sched
+
+    def make():
+        d = S.Daemon(host="127.0.0.1", port=0)
+        made = []
+
+        class Single:
+            pass
+
+        def creator(c):
+            made.append(1)
+            return c()
+        Single._pyroInstancing = ("single", creator)
+        c1, c2 = su.SocketConnection(FakeSock()), su.SocketConnection(FakeSock())
+        return [lambda: d._getInstance(Single, c1), lambda: d._getInstance(Single, c2)], (d, made)
+
+    def oracle(ctx, workers):
+        d, made = ctx
+        try:
+            d.close()
+        except Exception:      # noqa
+            pass
+        errs = [repr(w.error) for w in workers if w.error is not None]
+        if errs:
+            return {"fn": "_getInstance/line-schedule", "violated": "exception in a first call: %s" % errs}
+        if not all(w.done.is_set() for w in workers):
+            return {"fn": "_getInstance/line-schedule", "violated": "a first call never returned (deadlock)"}
+        insts = {id(w.result) for w in workers}
+        if len(made) != 1 or len(insts) != 1:
+            return {"fn": "_getInstance/line-schedule", "violated": "single: %d creations, %d distinct instances for two concurrent first calls" % (len(made), len(insts))}
+        return None
+    return sched.explore([S.__file__], make, oracle, max_k=max_k)
+
+
 def main(mode):
     t0 = time.time()
     runs = 0
@@ -147,8 +189,13 @@ def main(mode):
         for _ in range(3 if mode != "thorough" else 20):
             runs += 1
             fail = fail or forced_race()
+    if not fail:
+        n, fail = line_schedules(12 if mode != "thorough" else 30)
+        runs += n
+    for d in _DAEMON:
+        d.close()
     rep = {"runs": runs, "failing_input": fail, "wall_s": round(time.time() - t0, 2),
-           "bounded": [{"what": "real Daemon._getInstance over instance shapes x modes x creators x call histories on two connections; forced 2-thread schedule for 'single'",
+           "bounded": [{"what": "real Daemon._getInstance over instance shapes x modes x creators x call histories on two connections; forced 2-thread schedule for 'single'; line-granular two-thread schedules (strict alternation, and 'A runs k lines, then B') of two concurrent first calls",
                         "bound": "5 shapes x 3 modes x 4 creator kinds x all histories of length <= %d over 2 connections" % maxh, "runs": runs,
                         "failures": 0 if fail is None else 1}]}
     print(json.dumps(rep))
